@@ -611,7 +611,9 @@ class DataLinkConnection(TransmissionControlObject):
         if rcvd_pdu.name not in self.DLC_PDU_NAMES:
             self.err("non connection mode pdu on data link connection")
             send_pdu = pdu.FrameReject.from_pdu(rcvd_pdu, flags="W", dlc=self)
-            self.close()
+            # the connection is shut down when the FRMR PDU is dequeued,
+            # close() would wait here (in the link loop) for a DM response
+            self.send_queue.clear()
             self.send_queue.append(send_pdu)
             return
 
